@@ -224,7 +224,7 @@ def run(ctx):
                     aborted = True
                     break
             if aborted:
-                pool.pool.terminate()
+                pool.cancel()
                 break
             completed_depth = depth
             frontier = nxt
